@@ -504,7 +504,7 @@ func checkRow(c rowCase) (fw.Outcome, *fw.Violation) {
 
 func TestC06RowValues(t *testing.T) {
 	fw.Run(t, fw.Spec[rowCase]{
-		ID: "C06", Name: "row_values", Quick: 5000, Thorough: 150000,
+		ID: "C06", Name: "row_values", Quick: 5000, Thorough: 120000,
 		Gen: genRow, Check: checkRow,
 		Rule:        "three row values A, B, C of equal length 2-4 (B and C share a prefix of drawn length with A, element-wise equal or another spelling of the same value; elements from small integers, integer strings, quarter floats, NULL, short strings, booleans, ternaries, datetime strings, any class) evaluated in one SELECT: A op B, B op A, A op C for = <> != < <= > >= ==; row BETWEEN; IN / NOT IN / op ANY / op ALL over row lists of 1-3 rows and over multi-field subqueries (2 records, 1 record, none); oracle: (1) the result admitted by the element relations (= is the conjunction of element equalities, the ordering operators are decided by the first index that is not equal, UNKNOWN if that element has no order; where the manual is silent - FALSE next to UNKNOWN, elements equal as booleans - every reading is accepted), (2) the laws a<b iff b>a, a<>b iff NOT(a=b), = symmetric, a<=b iff (a<b OR a=b), (3) BETWEEN / IN / ANY / ALL equal the Kleene expansion of csvq's own row comparisons, the documented results over an empty record set, (4) the same condition in WHERE / HAVING / with ORDER BY keeps the row iff it is TRUE in the select list, (5) rows of different lengths are refused; non-trivial = the first elements alone do not decide A vs B, distinct by (length, element relations of A:B and A:C, operator)",
 		Assumptions: []string{"element relations are taken from the single-value comparison, whose agreement with the documented ladder is the subject of cmp_direct and sql_expr"},
